@@ -59,6 +59,10 @@ struct CallCtx {
 thread_local CallCtx* tl_call = nullptr;
 thread_local int tl_in_wait = 0;
 thread_local int tl_prev_flag = 0; // this thread saw the set under test cancelled at its previous harness step
+// a cancel() that covers the set under test (on the set itself or on an ancestor it cascades from) has *returned* on
+// this thread: by program order every later submission of this thread is "after cancel() has been called", whatever
+// the set's own flag says (a cascade that has not reached the child by then is exactly what C04 forbids)
+thread_local int tl_cancel_returned = 0;
 
 struct World {
   mc::Shared<int> started[kMax];
@@ -71,6 +75,7 @@ struct World {
   mc::Shared<int> gate_open{0};
   mc::Shared<int> gates_started{0};
   mc::Shared<int> progress{0}; // submission steps completed by the program runner
+  mc::Shared<int> child_ready{0}; // x1: the set under test exists; the top set's throwing task may go ahead
   mc::Shared<int> settled{0}; // the runner's gate tasks sit in their workers; a racing canceller may go ahead
   mc::Shared<int> submitter{-1}; // modelled thread id of the program runner
   mc::Shared<const std::atomic<bool>*> cflag{nullptr}; // canceled_ of the set under test (cancel harness only)
@@ -120,7 +125,13 @@ struct World {
   //   (2) the task was submitted by a call that began after the set had been cancelled.
   void cancel_oracle(int id) {
     const std::atomic<bool>* cf = cflag.get();
-    if (id >= kPoolGateBase || !cf || !raw(*cf)) return; // pool gates are not tasks of the set
+    if (id >= kPoolGateBase || !cf) return; // pool gates are not tasks of the set
+    if (!raw(*cf)) {
+      if (id < kGateBase && submitted_canceled[id].get())
+        mc::fail("body of task %d started although it was submitted after a cancel() covering its set had returned on the submitting thread (the set's own flag is still clear: the cascade did not reach it) [thread T%d] events:%s",
+                 id, mc_self_id(), dump().c_str());
+      return;
+    }
     canceled_seen.set(1);
     CallCtx* c = tl_call;
     const char* how = c ? "run inline by its schedule call" : "run from the pool queue/ring";
@@ -198,7 +209,7 @@ std::vector<Step> parse_prog(const std::string& prog) {
   for (size_t i = 0; i < prog.size(); i++) {
     Step s{prog[i], 1};
     if (s.op == '-') continue;
-    if (s.op == 'b' || s.op == 'B') {
+    if (s.op == 'b' || s.op == 'B' || s.op == 'r' || s.op == 'R') {
       MC_CHECK(i + 1 < prog.size(), "harness: bulk step without a count");
       s.k = prog[++i] - '0';
     }
@@ -299,7 +310,7 @@ void cover_expected_path(SetT& set, dispenso::ThreadPool& pool, const Step& st) 
 template <class SetT>
 void submit_step(SetT& set, dispenso::ThreadPool& pool, World& w, const Step& st, std::vector<dispenso::Future<void>>& futs) {
   CallCtx ctx;
-  ctx.pre_canceled = set.canceled(); // what a user could have observed before making the call
+  ctx.pre_canceled = set.canceled() || tl_cancel_returned; // what a user could have observed before making the call
   tl_prev_flag = ctx.pre_canceled ? 1 : 0;
   cover_expected_path(set, pool, st);
   int first = w.next.get();
@@ -366,6 +377,40 @@ void submit_step(SetT& set, dispenso::ThreadPool& pool, World& w, const Step& st
           set.schedule(outer, dispenso::ForceQueuingTag());
         else
           set.schedule(outer);
+        break;
+      }
+      case 'r':
+      case 'R': {
+        // self-recursive bulk scheduling (ConcurrentTaskSet only): a task of the set bulk-schedules st.k children
+        // into its own set while the owner may already be in wait(). The parent was scheduled before the wait, so
+        // the wait may not return before the parent has (and by then the children are counted).
+        MC_CHECK(is_cts(set), "harness: recursive scheduling needs a ConcurrentTaskSet");
+        int id = w.fresh();
+        int base = w.next.add(st.k);
+        MC_CHECK(base + st.k <= kGateBase, "harness: too many tasks");
+        w.barrier[id] = true;
+        for (int i = 0; i < st.k; i++) w.barrier[base + i] = true;
+        bool fq = st.op == 'R';
+        int k = st.k;
+        auto parent = [&w, &set, id, base, k, fq] {
+          int prev = w.started[id].add(1);
+          MC_CHECK(prev == 0, "body of task %d started a second time", id);
+          CallCtx* saved = tl_call;
+          tl_call = nullptr;
+          auto gen = [&w, base](size_t i) {
+            int cid = base + (int)i;
+            return [&w, cid] { w.body(cid); };
+          };
+          if (fq)
+            set.scheduleBulk((size_t)k, gen, dispenso::ForceQueuingTag());
+          else
+            set.scheduleBulk((size_t)k, gen);
+          tl_call = saved;
+          cov(fq ? "recursive_bulk_fq" : "recursive_bulk");
+          mc::point();
+          w.finished[id].set(1);
+        };
+        set.schedule(parent, dispenso::ForceQueuingTag());
         break;
       }
       case 'a': {
@@ -552,6 +597,7 @@ void cancel_runner(SetT& set, dispenso::ThreadPool& pool, World& w, const Cancel
   std::vector<dispenso::Future<void>> none;
   w.cflag.set(&set.canceled_);
   w.submitter.set(mc_self_id());
+  tl_cancel_returned = 0;
   submit_set_gates(set, pool, w, (int)cfg.g);
   settle_gates(pool, w);
   w.settled.set(1);
@@ -560,6 +606,7 @@ void cancel_runner(SetT& set, dispenso::ThreadPool& pool, World& w, const Cancel
     if (self_cancel && i == cfg.pos) {
       w.ev('C', 0);
       self_cancel();
+      tl_cancel_returned = 1;
       w.ev('D', 0);
       w.note_flag();
       cov("cancel_by_runner");
@@ -653,8 +700,13 @@ MC_HARNESS(cancel) {
       });
     } else {
       // parent cascade: top (-> mid) -> set under test, each child created inside a task of its parent
+      // x1: the top set is first cancelled *by an exception* of another of its tasks (which sets its flag without
+      //     walking the children), then the runner calls top.cancel() explicitly: that call must still cascade
+      // cc: the runner and T0 both call top.cancel(); whichever returns first, the cascade must have reached the
+      //     child by the time the runner's own call returns
       bool deep = src == "p2" || src == "P2";
-      bool racing = src == "P1" || src == "P2";
+      bool exc_first = src == "x1", dbl = src == "cc";
+      bool racing = src == "P1" || src == "P2" || dbl;
       MC_CHECK(!racing || cfg.n >= 1, "harness: a racing cancel needs the runner on a worker");
       with_set(cfg.kind, pool, dispenso::ParentCascadeCancel::kOff, 4, [&](auto& top) {
         auto runner = [&] {
@@ -662,6 +714,18 @@ MC_HARNESS(cancel) {
           with_set(cfg.kind, pool, dispenso::ParentCascadeCancel::kOn, cfg.slm, [&](auto& set) {
             std::function<void()> self_cancel;
             if (!racing) self_cancel = [&] { top.cancel(); };
+            if (dbl) // the runner's call begins once T0's has begun, so that one preemption of T0 puts it inside T0's walk
+              self_cancel = [&] {
+                mc::block_until([&] { return raw(top.canceled_); });
+                top.cancel();
+              };
+            if (exc_first)
+              self_cancel = [&] {
+                w.child_ready.set(1);
+                mc::block_until([&] { return raw(top.canceled_); });
+                cov("cancel_after_exception_cancel");
+                top.cancel();
+              };
             cancel_runner(set, pool, w, cfg, self_cancel);
           });
           cov(deep ? "cascade_depth2" : "cascade_depth1");
@@ -676,12 +740,25 @@ MC_HARNESS(cancel) {
           top.schedule(mid, dispenso::ForceQueuingTag());
         else
           top.schedule(runner, dispenso::ForceQueuingTag());
+        if (exc_first)
+          top.schedule(
+              [&] {
+                mc::block_until([&] { return w.child_ready.get() != 0; });
+                throw Tagged{kMax - 1};
+              },
+              dispenso::ForceQueuingTag());
         if (racing) {
           mc::block_until([&] { return w.settled.get() && w.progress.get() >= cfg.pos; });
           top.cancel();
-          cov("cancel_by_t0_racing");
+          cov(dbl ? "cancel_twice_racing" : "cancel_by_t0_racing");
         }
-        bool r = top.wait();
+        bool r;
+        try {
+          r = top.wait();
+        } catch (const Tagged&) {
+          MC_CHECK(exc_first, "top wait() threw although no task of the top set throws");
+          r = top.wait();
+        }
         MC_CHECK(r == raw(top.canceled_), "top wait() return value does not match its cancelled state");
       });
     }
